@@ -1,7 +1,7 @@
 """C04: backward reasoner never refutes something the machine does."""
 from . import core
 from .common import diff_streams, parse_kv
-from .deciders import GOALS, program_stream, judge_refutations
+from .deciders import GOALS, program_stream, judge_refutations, escalate, event_happens
 
 LEVEL = "proof"
 OPS = {"halt": "cant_halt", "blank": "cant_blank", "spin_out": "cant_spin_out"}
@@ -74,6 +74,11 @@ def check(rep, tier, seed, replay):
         total += len(lines)
         samples += lines[:1]
         core.log(f"[C04] {name}: {len(lines)} cases, {len(items)} refutations, {len(bad)} contradicted by L0")
+    if all_mism and not any(v.get("found_input") for v in rep.violations):
+        def refuted_by(line, out, f):
+            op = line.split(" ")[0]
+            return event_happens([g for g in GOALS if OPS[g] == op][0], f)
+        escalate(rep, all_mism, lambda o: o.startswith("refuted"), refuted_by, seed)
     for m in all_mism[:200]:
         rep.violation("correspondence", m, found_input=False)
     rep.add_counts(total, nontrivial)
